@@ -77,11 +77,19 @@ theorem bz_hc_ne (hc : BitVec 32) : hc ≠ hc + 1 := by
 
 theorem gate_bz (total : BitVec 32) (acc : Bytes) (blocks : List (BitVec 32 × Bytes)) (sc : BitVec 32) (out : Bytes)
     (h : bzRun total acc blocks sc = some out) :
-    (∀ b ∈ blocks, b.1 = bzBlockCrc b.2) ∧ out = acc ++ (blocks.map (·.2)).flatten := by
+    (∀ b ∈ blocks, b.1 = bzBlockCrc b.2) ∧ out = acc ++ (blocks.map (·.2)).flatten ∧
+      (Gen.bzStreamCrcDead = false → sc = bzStreamCrc total (blocks.map (·.2))) := by
   induction blocks generalizing total acc with
   | nil =>
-    simp only [bzRun, Option.some.injEq] at h
-    simp [h]
+    simp only [bzRun] at h
+    split at h
+    · simp at h
+    · rename_i hc
+      simp only [Option.some.injEq] at h
+      refine ⟨by simp, by simp [h], ?_⟩
+      intro hd
+      simp only [hd, Bool.not_false, Bool.true_and, decide_eq_true_eq, ne_eq, Decidable.not_not] at hc
+      simpa [bzStreamCrc] using hc
   | cons b rest ih =>
     obtain ⟨hc, d⟩ := b
     simp only [bzRun] at h
@@ -93,19 +101,21 @@ theorem gate_bz (total : BitVec 32) (acc : Bytes) (blocks : List (BitVec 32 × B
       · exact absurd h (by simp)
     · rename_i heq
       simp only [ne_eq, Decidable.not_not] at heq
-      have ⟨h1, h3⟩ := ih _ _ h
-      refine ⟨?_, ?_⟩
+      have ⟨h1, h3, h4⟩ := ih _ _ h
+      refine ⟨?_, ?_, ?_⟩
       · intro b hb
         rcases List.mem_cons.mp hb with hb | hb
         · subst hb; exact heq.symm
         · exact h1 b hb
       · simpa [List.append_assoc] using h3
+      · intro hd; simpa [bzStreamCrc] using h4 hd
 
-/-- the stored stream CRC has no influence on the verdict (see `bzRun`) -/
-theorem bz_stream_crc_ignored (total : BitVec 32) (acc : Bytes) (blocks : List (BitVec 32 × Bytes)) (sc sc' : BitVec 32) :
+/-- while the comparison is dead code the stored stream CRC has no influence on the verdict -/
+theorem bz_stream_crc_ignored (hd : Gen.bzStreamCrcDead = true) (total : BitVec 32) (acc : Bytes)
+    (blocks : List (BitVec 32 × Bytes)) (sc sc' : BitVec 32) :
     bzRun total acc blocks sc = bzRun total acc blocks sc' := by
   induction blocks generalizing total acc with
-  | nil => rfl
+  | nil => simp [bzRun, hd]
   | cons b rest ih =>
     obtain ⟨hc, d⟩ := b
     simp only [bzRun]
